@@ -24,7 +24,8 @@ EXPLANATION = (
     "followed by a listed delimiter. (R2) E8 threading of `strict` over the resolved call graph (class-hierarchy "
     "expansion of virtual calls) from the file entry points. (R3) constant/plumbing facts. (R4) every threshold test under which a reader merges the severity of a part into the enclosing descriptor holds for SEVERITY_USERMSG, the severity of a lenient substitution. Not decided: the value "
     "actually written back beyond 'target assigned a constant'."
-    " (R5) where a reader classifies an instance by a switch over its severity and sets the node state in the arms (STEPfile::ReadInstance), SEVERITY_USERMSG reaches the same ChangeState calls as SEVERITY_NULL: the instance that received the lenient filler is a complete instance.")
+    " (R5) where a reader classifies an instance by a switch over its severity and sets the node state in the arms (STEPfile::ReadInstance), SEVERITY_USERMSG reaches the same ChangeState calls as SEVERITY_NULL: the instance that received the lenient filler is a complete instance."
+    " (R5p, shared with C03) the Severity returned by a part reader called on another object, or that object's Error(), is used: what strict mode reports for an unset required attribute inside a complex part has to reach the instance.")
 
 ENTRY = ["STEPfile::ReadExchangeFile", "STEPfile::AppendExchangeFile", "STEPfile::ReadWorkingFile",
          "STEPfile::AppendWorkingFile", "lazyInstMgr::loadInstance"]
@@ -438,6 +439,11 @@ def r3(prog, res):
 def run(prog, res, tier):
     r4_usermsg_merged(prog, res)
     r5_usermsg_classified_like_clean(prog, res)
+    # strictness only matters if what a part reader reports reaches the instance at all (rule shared with C03 R5)
+    from rules import c03, c03_more
+    sv = c03.sev_enum(prog)
+    if sv is not None:
+        c03_more.r5_part_results(prog, res, sv)
     r1(prog, res)
     r2(prog, res)
     r3(prog, res)
